@@ -172,6 +172,8 @@ impl RK4 {
 
             xold = x;
             yt.copy_from_slice(&y);
+            // Slope at the left end for the Hermite interpolant, saved before k1 is overwritten
+            cont[n..2 * n].copy_from_slice(&k1);
 
             // Update solution
             x = if last { xend } else { x + h };
@@ -188,10 +190,7 @@ impl RK4 {
             let event = xout.map_or(false, |xo| xo <= x);
             if (self.dense_output || event) && solout.is_some() {
                 cont[0..n].copy_from_slice(&yt);
-                for i in 0..n {
-                    cont[n + i] = k4[i];
-                    cont[2 * n + i] = k1[i];
-                }
+                cont[2 * n..3 * n].copy_from_slice(&k1);
                 cont[3 * n..4 * n].copy_from_slice(&y);
             }
 
